@@ -131,7 +131,7 @@ RULE = ("every public saver / loader pair for results (write_json | FileSystem.s
         "truncated files, 110 hand-made texts incl. 66 malformed ones); 36 / 200 results of every class with non-ASCII forecast / "
         "catalog / test names + one real evaluation + regions through every writer / reader pairing in a CHILD PROCESS under "
         "LC_ALL=C, PYTHONUTF8=0 (thorough also C.UTF-8 and UTF-8 mode); the spacing argument of a region as numpy.float32 / "
-        "float64 / int / numpy.int64 (float32: see AWAITING_DECISION)")
+        "float64 / int / numpy.int64 (float32 with a non-dyadic spacing: known finding D44, signature SIG_D44)")
 
 FIELDS = ("test_distribution", "name", "observed_statistic", "quantile", "status", "obs_catalog_repr", "sim_name",
           "obs_name", "min_mw")
@@ -1004,7 +1004,13 @@ def _check_region(run, drv, pend, origins, dh, mask, probes, dyadic, infer_dh, t
         pend.append(("region", case, drv.ask(f"c18_region {ostr} {frac(dh)} {mstr} {pstr}"), (a, b)))
 
 
-AWAITING_DECISION = ["region:dh-given-as-numpy.float32:rebuilt-region-uses-the-widened-spacing"]
+AWAITING_DECISION = []
+# known finding D44 (known_findings.json): a spacing handed over as numpy.float32 is written as float(dh), the widened binary
+# value, while the region itself was built from the decimal the float32 prints as; the rebuilt region's edges drift and points
+# at lattice nodes change cell. The signature is passed ONLY for that shape of failure (float32 spacing whose widening changes
+# the value, the rebuilt region exists and carries the widened spacing, every cell midpoint keeps its index); anything else
+# in this class - another numeric type, a rebuild that raises, midpoints that move - is reported as a violation.
+SIG_D44 = "region-dh-float32-rebuilt-with-widened-spacing"
 
 
 def check_region_dhform(run, rng, form, tmp, spec=None):
@@ -1035,15 +1041,21 @@ def check_region_dhform(run, rng, form, tmp, spec=None):
     path = os.path.join(tmp, "region_form.json")
     for how, fn in (("from_dict(to_dict())", lambda: CartesianGrid2D.from_dict(r.to_dict())),
                     ("write_json -> load_json", lambda: (csep.write_json(r, path), csep.load_json(CartesianGrid2D, path))[1])):
-        c = _try(lambda fn=fn: [locate(fn(), q) for q in probes])
+        def rebuilt(fn=fn):
+            x = fn()
+            return [locate(x, q) for q in probes], float(x.dh)
+        c = _try(rebuilt)
+        c, dh2 = c if isinstance(c, tuple) else (c, None)
         if c != a:
             j = 0 if isinstance(c, str) else [i for i in range(len(a)) if a[i] != c[i]][0]
             msg = (f"dh given as {form} ({dhv!r}), {how}: point {probes[j]!r}: original region index {a[j]}, rebuilt region gives "
                    f"{c if isinstance(c, str) else c[j]}")
-            if form == "float32" and AWAITING_DECISION:
-                run.count("awaiting-decision:" + AWAITING_DECISION[0])
-            else:
-                run.oracle_failure(dict(case, pair=how), msg)
+            sig = None
+            if form == "float32" and not isinstance(c, str) and float(dhv) != float(dh) and dh2 == float(dhv) \
+                    and all(a[i] == c[i] for i in range(1, len(a), 4)):       # probes 1, 5, 9, … are the cell midpoints
+                sig = SIG_D44
+            run.oracle_failure(dict(case, pair=how), msg, signature=sig)
+            run.count(f"region-dhform:{form}:{'known-finding-D44' if sig else 'DIFFERS'}")
             return
     run.count(f"region-dhform:{form}:same-index")
 
@@ -1071,7 +1083,10 @@ def flush(run, drv, pend):
         elif what == "c18_field":
             loaded, safe = impl
             parts = o.split(" ")
-            if len(parts) != 3 or parts[1] != loaded or (parts[2] == "1") != safe:
+            if len(parts) == 3 and (parts[2] == "1") == safe and not safe and parts[1] != loaded:
+                # the written form of a field that is NOT made of safe kinds (str() of an ndarray today) is incidental
+                run.count("field:written-form-of-unsafe-value-differs(not judged)")
+            elif len(parts) != 3 or parts[1] != loaded or (parts[2] == "1") != safe:
                 run.mismatch(dict(case, op="c18_field"), [loaded, safe], o)
         elif what == "c18_td":
             loaded, _ = impl
